@@ -373,6 +373,9 @@ func taintOneCmd(args []string) int {
 			continue
 		}
 		fmt.Printf("cfg[%s] flows=%v panic=%q err=%q\n", c.String(), r.Flows, r.Panic, r.Err)
+		if r.Panic != "" && os.Getenv("VP_STACK") != "" {
+			fmt.Println(r.Stack)
+		}
 	}
 	return 0
 }
